@@ -341,7 +341,7 @@ theorem timingPart_tf {s : State} (hT : Top cfg s) (hidle : s.inTraffic = false)
 
 /-- the MESSAGE_TRAFFIC report itself: every receiver gets it whole and in order, or not at all -/
 theorem sendTraffic_rows (hna : MgrNotAll cfg) (hord : OrderGood cfg) {s1 : State} (t1 : Top cfg s1) (f0 : Frame) (h0 : f0.dest = 0) :
-    ∃ sL, TF s1 sL ∧ ∀ o,
+    ∃ sL, TF s1 sL ∧ Top cfg sL ∧ ∀ o,
       (dataSends isTrafficB (sendTraffic cfg s1).out).filter (·.1 == o) = (dataSends isTrafficB s1.out).filter (·.1 == o) ++
         (if recvB cfg sL cfg.mtTraffic f0 o = true
          then (trafficFrames cfg s1.trafficSeq s1.traffic).map (fun f => (o, f)) else []) := by
@@ -358,7 +358,7 @@ theorem sendTraffic_rows (hna : MgrNotAll cfg) (hord : OrderGood cfg) {s1 : Stat
   generalize logAt cfg (fwdTop cfg) 10 sa = sL at hL hTL
   have tfL := ha.trans hL
   rw [tfL.traffic, tfL.seq]
-  refine ⟨sL, tfL, fun o => ?_⟩
+  refine ⟨sL, tfL, hTL, fun o => ?_⟩
   have hfold := broadcast_foldl ok hfuel hB hord cfg.mtTraffic htt f0 h0 o (trafficFrames cfg s1.trafficSeq s1.traffic) hTL
     (trafficFrames_props s1.trafficSeq s1.traffic)
   show (dataSends isTrafficB ((trafficFrames cfg s1.trafficSeq s1.traffic).foldl (fwdTop cfg) sL).out).filter _ = _
@@ -369,7 +369,7 @@ theorem sendTraffic_rows (hna : MgrNotAll cfg) (hord : OrderGood cfg) {s1 : Stat
     in order — or nothing; `sL` is the state in which the first sub-message is handled -/
 theorem ticks_traffic (hna : MgrNotAll cfg) (hord : OrderGood cfg) {s : State} (hT : Top cfg s) (hidle : s.inTraffic = false)
     (f0 : Frame) (h0 : f0.dest = 0) :
-    ∃ sL, Pres s sL ∧ IKP s sL ∧ RK s sL ∧ ∀ o,
+    ∃ sL, Pres s sL ∧ IKP s sL ∧ RK s sL ∧ Top cfg sL ∧ ∀ o,
       (dataSends isTrafficB (ticks cfg s).out).filter (·.1 == o) = (dataSends isTrafficB s.out).filter (·.1 == o) ++
         (if s.now - s.tTraffic > 1000 ∧ recvB cfg sL cfg.mtTraffic f0 o = true
          then (trafficFrames cfg s.trafficSeq s.traffic).map (fun f => (o, f)) else []) := by
@@ -389,12 +389,12 @@ theorem ticks_traffic (hna : MgrNotAll cfg) (hord : OrderGood cfg) {s : State} (
   rw [tf1.now, tf1.tR]
   by_cases ht2 : s.now - s.tTraffic > 1000
   · simp only [ht2, if_true, true_and]
-    obtain ⟨sL, tfL, hrows⟩ := sendTraffic_rows ok hfuel hna hord t1 f0 h0
+    obtain ⟨sL, tfL, hTL, hrows⟩ := sendTraffic_rows ok hfuel hna hord t1 f0 h0
     have tf := tf1.trans tfL
-    refine ⟨sL, tf.pres, tf.ikp, tf.rk, fun o => ?_⟩
+    refine ⟨sL, tf.pres, tf.ikp, tf.rk, hTL, fun o => ?_⟩
     rw [dataSends_of_QE (hactive _), hrows o, dataSends_of_QE tf1.qe, tf1.traffic, tf1.seq]
   · simp only [ht2, if_false, false_and]
-    refine ⟨s1, tf1.pres, tf1.ikp, tf1.rk, fun o => ?_⟩
+    refine ⟨s1, tf1.pres, tf1.ikp, tf1.rk, t1, fun o => ?_⟩
     rw [dataSends_of_QE (hactive _), dataSends_of_QE tf1.qe]; simp
 
 end withcfg
